@@ -23,10 +23,17 @@
     gone, the pointer still resolves to the same entry and keeps doing so when that entry is overwritten - which is the
     case when the page tables form a tree and the faulting page is neither the temporary page nor inside the recursive
     window (the domain of C06_cow_ok).
-    Statements only; proofs are in Vmm/FaultTrans.v. *)
+    [C06_fault_handler_is_translation_inv] discharges [F.fault_stable] IN GENERAL on the domain of C06_cow_ok /
+    C06_fault_else_panics: the invariant [Inv] of the active space, the fault page outside the recursive window and not
+    the temporary page, and - if the page is present, read-only and copy-on-write - showing a data frame (backed, not a
+    page table, not in the allocator's hands): no per-state check, for recoverable and non-recoverable faults alike.
+    OUTSIDE that domain the Go code re-resolves pageEntry after the temporary mapping and after each store while the
+    model resolves it once.
+    Statements only; proofs are in Vmm/FaultTrans.v and Vmm/StableInvFault.v. *)
 From Coq Require Import NArith String List.
 From FF Require Import Lib.Word Lib.GoOps Gen.Consts_mm_vmm Gen.Trans_vmm_fault Vmm.Pt Vmm.PtAccess.
-From FF Require Vmm.FaultTrans Vmm.MapTrans Vmm.PdtTrans.
+From FF Require Vmm.FaultTrans Vmm.MapTrans Vmm.PdtTrans Vmm.StableInvFault.
+From FF Require Import Vmm.PtMap Vmm.PtFault.
 Module F := FF.Vmm.FaultTrans.
 Module M := FF.Vmm.MapTrans.
 Module T := FF.Vmm.PdtTrans.
@@ -52,3 +59,22 @@ Theorem C06_walk_items_nonzero :
   forall (va l p : N), In (l, p) (walk_items va) -> p <> 0.
 Proof. exact F.walk_items_nonzero. Qed.
 Print Assumptions C06_walk_items_nonzero.
+
+(** the handler on the whole domain of the C06 fault theorems *)
+Theorem C06_fault_handler_is_translation_inv :
+  forall (s : st) (A : N) (own : PtTree.ownmap) (addr regs : N) (tr0 : list gcall),
+    Inv s A A own -> addr < two64 -> T.mem_w64 s ->
+    let page := page_from_addr addr in
+    hw_idx page 0 <> 511 -> ~ PtTheorems.same_page page temp_page ->
+    (forall e, cow_pre s A page = Some e ->
+       backed s (hw_frame e) = true /\ own (hw_frame e) = None /\ ~ In (hw_frame e) (orc s)) ->
+    F.fres (go_vmm_pageFaultHandler (mk_go_vmm_world tr0 s) regs
+              T.o_flush F.o_memcopy T.o_maptemp M.o_alloc F.o_nonrec (F.o_cr2 addr) T.o_unmap) =
+    match page_fault addr s with
+    | Stray => GPanic
+    | Ok (s', out) =>
+        GOk (s', if out =? 0 then None
+                 else Some [GNum addr; GNum regs; err_arg (T.err_of (out - PANIC))])
+    end.
+Proof. exact StableInvFault.fault_handler_is_translation_inv. Qed.
+Print Assumptions C06_fault_handler_is_translation_inv.
